@@ -37,7 +37,7 @@ class Parser(object):
         return t
 
     def t_PATH(self, t):
-        r'".*"'
+        r'"[^"\n]*"'
         return t
 
     def t_CONST16(self, t):
